@@ -59,6 +59,9 @@ func runC11(t *testing.T, res *common.Result, rng *common.Rng) {
 	}
 	const N = 12
 	n := 0
+	for _, sig := range []syscall.Signal{syscall.SIGINT, syscall.SIGTERM} {
+		c11TimerCallbackInFlight(t, res, rng.Fork(uint64(1000+int(sig))), sig)
+	}
 	for _, cfg := range cfgs {
 		for _, sig := range []syscall.Signal{syscall.SIGINT, syscall.SIGTERM} {
 			for w := 0; w < workloads; w++ {
@@ -79,6 +82,77 @@ func runC11(t *testing.T, res *common.Result, rng *common.Rng) {
 					c11Scenario(t, res, r.Fork(uint64(p)), cfg, sig, p, N, churn)
 				}
 			}
+		}
+	}
+}
+
+// c11TimerCallbackInFlight: the signal arrives while a timer callback is running - the idle callback of a
+// REST session (session timeout 1 s) that waits for the session's stalled request to finish. "Whatever
+// requests are in flight" includes the one that keeps a callback busy: the closers must not wait for it.
+func c11TimerCallbackInFlight(t *testing.T, res *common.Result, rng *common.Rng, sig syscall.Signal) {
+	srv := startServer(t, srvCfg{rest: true, extra: []string{"--rest_session_timeout", "1s"}})
+	if !srv.started {
+		t.Fatalf("server did not start: %v", srv.logTail(40))
+	}
+	defer srv.kill()
+	g1 := &grpcT{g: dialGrpc(t, srv.grpcAddr, nil)}
+	defer g1.g.close()
+	name := randName(rng, "cb")
+	o := g1.tryLock(lockArgs{name: name})
+	log := []string{fmt.Sprintf("g1 TryLock name=%s -> locked=%v key=%s", name, o.Flag, o.Key)}
+	rc2 := newRestClient(srv.restAddr, nil)
+	defer rc2.closeIdle()
+	stalled := false
+	if r := rc2.createSession(); r.Status == 201 {
+		if u, err := url.Parse(rc2.base); err == nil && len(rc2.hc.Jar.Cookies(u)) > 0 {
+			ck := rc2.hc.Jar.Cookies(u)[0]
+			if conn, err := net.Dial("tcp", srv.restAddr); err == nil {
+				defer conn.Close()
+				body := `{"name":"stalled-request-lock-name-0123456789"}`
+				fmt.Fprintf(conn, "POST /v1/lock HTTP/1.1\r\nHost: %s\r\nContent-Type: application/json\r\nContent-Length: %d\r\nCookie: %s=%s\r\n\r\n%s",
+					srv.restAddr, len(body), ck.Name, ck.Value, body[:10])
+				stalled = true
+				log = append(log, "rest POST /session -> 201; POST /v1/lock: headers and 10 body bytes sent, the rest never arrives; 1.5 s pass (session timeout 1 s: its idle callback is now waiting for the request)")
+				time.Sleep(1500 * time.Millisecond)
+			}
+		}
+	}
+	res.Count(fmt.Sprintf("idle-callback-in-flight:%v", stalled))
+	res.Eval(fmt.Sprintf("%s|timer-callback-in-flight|stalled=%v", sigName(sig), stalled), stalled && o.Flag)
+	replay := map[string]any{"server_flags": srv.args, "signal": sigName(sig), "requests_before_signal": log}
+	res.Sample(replay)
+	if err := srv.signal(sig); err != nil {
+		t.Fatalf("cannot signal the server: %v", err)
+	}
+	code, signaled, ok := srv.waitExit(10 * time.Second)
+	switch {
+	case !ok:
+		res.Count("exit:callback-in-flight:hang")
+		replay["log_tail"] = srv.logTail(40)
+		res.Find(common.Finding{Kind: "violation", Property: "C11", Signature: "stack:shutdown:hang:timer-callback-in-flight",
+			What: fmt.Sprintf("the server is still running 10 s after %s sent while the idle callback of a REST session was waiting for that session's stalled request", sigName(sig)), Replay: replay})
+		srv.kill()
+		return
+	case signaled:
+		res.Count("exit:callback-in-flight:killed-by-signal")
+	case code != 0:
+		res.Count(fmt.Sprintf("exit:callback-in-flight:status-%d", code))
+		replay["log_tail"] = srv.logTail(40)
+		res.Find(common.Finding{Kind: "violation", Property: "C11", Signature: "stack:shutdown:exit-status:timer-callback-in-flight",
+			What: fmt.Sprintf("the server exited with status %d after %s (idle callback of a REST session in flight), required 0", code, sigName(sig)), Replay: replay})
+	default:
+		res.Count("exit:callback-in-flight:status-0")
+	}
+	if srv.crashed() {
+		replay["log_tail"] = srv.logTail(40)
+		res.Find(common.Finding{Kind: "violation", Property: "C11", Signature: "stack:shutdown:panic:timer-callback-in-flight",
+			What: "the server printed a panic / fatal error while shutting down with a timer callback in flight", Replay: replay})
+	}
+	if o.Flag {
+		if st, _, err := readState(srv.state); err != nil || !containsHold(st, hold{name, o.Key, 1}) {
+			replay["log_tail"] = srv.logTail(40)
+			res.Find(common.Finding{Kind: "violation", Property: "C11", Signature: "stack:shutdown:holds-cleared:timer-callback-in-flight",
+				What: fmt.Sprintf("after %s (idle callback of a REST session in flight) the state file lacks the gRPC hold %s/%s that was live at shutdown", sigName(sig), name, o.Key), Replay: replay})
 		}
 	}
 }
